@@ -39,6 +39,18 @@ type Slice struct {
 	off, len, cap int
 }
 
+// LazyStr is a concatenation whose integer-formatting parts are expanded only when the string
+// is inspected (most formatted strings are error messages nobody looks into).
+type LazyStr struct {
+	parts  []Value // string | *SymStr | *lazyItoa
+	forced Value
+}
+
+type lazyItoa struct {
+	n      *Term // 64-bit signed
+	forced Value
+}
+
 // SymStr is a string with symbolic bytes and concrete length. Concrete strings are Go strings.
 type SymStr struct {
 	b []*Term // 8-bit terms
@@ -270,6 +282,8 @@ func ptrEq(a, b Pointer) bool {
 
 func (in *Interp) strLen(v Value) int {
 	switch s := v.(type) {
+	case *LazyStr:
+		return in.strLen(in.force(s))
 	case string:
 		return len(s)
 	case *SymStr:
@@ -280,6 +294,8 @@ func (in *Interp) strLen(v Value) int {
 
 func (in *Interp) strBytes(v Value) []*Term {
 	switch s := v.(type) {
+	case *LazyStr:
+		return in.strBytes(in.force(s))
 	case string:
 		out := make([]*Term, len(s))
 		for i := 0; i < len(s); i++ {
@@ -366,7 +382,7 @@ func (in *Interp) eqVal(th *Thread, t types.Type, a, b Value) *Term {
 		return in.st.Eq(x, y)
 	case Float:
 		return in.st.Bool(x.f == b.(Float).f)
-	case string, *SymStr:
+	case string, *SymStr, *LazyStr:
 		return in.strEq(a, b)
 	case Pointer:
 		return in.st.Bool(ptrEq(x, b.(Pointer)))
@@ -500,6 +516,8 @@ func showVal(v Value, d int) string {
 		return "…"
 	}
 	switch x := v.(type) {
+	case *LazyStr:
+		return "lazystr"
 	case nil:
 		return "<nil>"
 	case *Term:
@@ -571,4 +589,74 @@ func showVal(v Value, d int) string {
 		return "opaque:" + x.what
 	}
 	return fmt.Sprintf("%T", v)
+}
+
+
+// force expands a lazy string into string / *SymStr (forking on digit counts of symbolic ints).
+func (in *Interp) force(l *LazyStr) Value {
+	if l.forced != nil {
+		return l.forced
+	}
+	var bs []*Term
+	for _, p := range l.parts {
+		switch x := p.(type) {
+		case *lazyItoa:
+			if x.forced == nil {
+				x.forced = in.itoaSym(in.cur, x.n)
+			}
+			bs = append(bs, in.strBytes(x.forced)...)
+		default:
+			bs = append(bs, in.strBytes(x)...)
+		}
+	}
+	l.forced = in.mkStr(bs)
+	return l.forced
+}
+
+// itoaSym renders a symbolic 64-bit signed integer in decimal without division: it forks on
+// sign and digit count and introduces one fresh byte per digit, tied to n by a linear equation.
+func (in *Interp) itoaSym(th *Thread, n *Term) Value {
+	st := in.st
+	if n.IsConst() {
+		return fmt.Sprint(n.S())
+	}
+	neg := in.branch(th, st.Cmp(OpSlt, n, st.Const(64, 0)), "itoa-sign")
+	mag := n
+	if neg {
+		mag = st.Un(OpNeg, n)
+	}
+	k := 1
+	pow := uint64(10)
+	for k < 19 {
+		lt := st.Cmp(OpUlt, mag, st.Const(64, pow))
+		var small bool
+		if lt.IsConst() {
+			small = lt.k != 0
+		} else {
+			small = in.branch(th, lt, "itoa-digits")
+		}
+		if small {
+			break
+		}
+		k++
+		pow *= 10
+	}
+	var bs []*Term
+	if neg {
+		bs = append(bs, st.Const(8, '-'))
+	}
+	sum := st.Const(64, 0)
+	for i := 0; i < k; i++ {
+		c := in.freshVar(8, "itoa")
+		lo := st.Const(8, '0')
+		if i == 0 && k > 1 {
+			lo = st.Const(8, '1')
+		}
+		in.pc = append(in.pc, st.And(st.Cmp(OpUle, lo, c), st.Cmp(OpUle, c, st.Const(8, '9'))))
+		d := st.ZExt(st.Bin(OpSub, c, st.Const(8, '0')), 64)
+		sum = st.Bin(OpAdd, st.Bin(OpMul, sum, st.Const(64, 10)), d)
+		bs = append(bs, c)
+	}
+	in.pc = append(in.pc, st.Eq(sum, mag))
+	return in.mkStr(bs)
 }
